@@ -192,7 +192,135 @@ def build(ctx):
         log('[C16] %s: %d paths, %d panic edges in the kernel itself, %.1fs' % (site['key'], len(outs), n, time.time() - t))
     ctx.notes.append('shape.rs: %d panic edges decided, %d precondition-dependent' % (decided, contract))
     wide_scan(ctx, eng)
+    part_annotation(ctx, eng)
     ctx.cover('cover/usable-page-satisfiable', [z3.BoolVal(True)])
+
+
+# ----------------------------------------------------------------------------- D. the range handed to the diagnostic renderer
+def part_annotation(ctx, eng):
+    """format_report_formatter.rs::annotation + FormattingError::format_len: the byte range given to annotate-snippets lies inside
+    `line_buffer` and on character boundaries (the renderer panics otherwise: environment contract, exercised by the replay).
+    line_buffer is an uninterpreted text with a symbolic byte length n and an uninterpreted predicate is_boundary(i)."""
+    from mirsym.intrinsics import some, NONE
+    name = eng.find('annotation', free=True)
+    fn = eng.get_fn(name)
+    fe = eng.src.struct_fields('FormattingError', 'src/formatting.rs')
+    ek = eng.enum_variants('ErrorKind')
+    n = z3.BitVec('line_buffer.len', 64)
+    isb = z3.Function('is_char_boundary', z3.BitVecSort(64), z3.BoolSort())
+    old = (eng.lenient, eng.usize_bound, eng.inline_only, list(eng.stubs))
+    eng.lenient = True
+    eng.usize_bound = LIM
+    eng.stubs = []
+    eng.inline_only = [re.compile(r'^annotation$|format_report_formatter.*annotation'), re.compile(r'format_len$')]
+    buf = eng.fresh_str('line_buffer')
+
+    def is_buf(e, s_, v):
+        while isinstance(v, Ref):
+            v = e.read_ref(s_, v)
+        return isinstance(v, StrVal) and v.e is not None and v.e.eq(buf.e)
+
+    def s_len(e, s_, a, c):
+        v = a[0]
+        while isinstance(v, Ref):
+            v = e.read_ref(s_, v)
+        if is_buf(e, s_, v):
+            return BV(n, 'usize')
+        if isinstance(v, Tup) and v.name == 'TrimmedEnd':
+            return v.items[0]
+        raise Unsupported('len of %r' % (v,))
+
+    def s_trim_end(e, s_, a, c):
+        m = e.fresh_bv('trim_end.len', 'usize')
+        s_.assume(z3.And(z3.ULE(m.e, n), isb(m.e)))
+        return Tup([m], 'TrimmedEnd')
+
+    def s_rfind(e, s_, a, c):
+        pos = e.fresh_bv('rfind.pos', 'usize')
+        w = e.fresh_bv('rfind.char_len', 'usize')
+        d = e.fresh_bv('rfind.some', 'usize')
+        s_.assume(z3.Or(d.e == 0, d.e == 1))
+        # std contract: the byte index of the first byte of the last matching character, which is 1..4 bytes long
+        s_.assume(z3.Implies(d.e == 1, z3.And(z3.ULT(pos.e, n), isb(pos.e), z3.UGE(w.e, 1), z3.ULE(w.e, 4), z3.ULE(pos.e + w.e, n), isb(pos.e + w.e),
+                                              z3.And([z3.Implies(z3.ULT(z3.BitVecVal(k, 64), w.e), z3.Not(isb(pos.e + k))) for k in (1, 2, 3)]))))
+        return Enum('Option', d.e, {1: Tup([pos])})
+
+    def s_nth(e, s_, a, c):
+        k = a[1]
+        i = e.fresh_bv('nth.byte', 'usize')
+        d = e.fresh_bv('nth.some', 'usize')
+        s_.assume(z3.Or(d.e == 0, d.e == 1))
+        s_.assume(z3.Implies(d.e == 1, z3.And(z3.ULT(i.e, n), isb(i.e), z3.UGE(i.e, k.e))))
+        return Enum('Option', d.e, {1: Tup([Tup([i, e.fresh_bv('nth.char', 'char')])])})
+    spans = []
+
+    def lvl_span(e, s_, a, c):
+        s_.trace.append(('span', a[1]))
+        return Opaque('Annotation', 'ann')
+    eng.stub(r'<impl str>::len$|String::len$', s_len, 'line_buffer.len() = n (symbolic byte length)')
+    eng.stub(r'<impl str>::trim_end$', s_trim_end, 'trim_end(): a prefix ending on a character boundary')
+    eng.stub(r'<impl str>::rfind::<', s_rfind, 'str::rfind(pred): Some(first byte of the last matching character) | None')
+    eng.stub(r'CharIndices<.*> as (std::iter::)?Iterator>::nth$', s_nth, 'char_indices().nth(k): Some((byte index >= k on a boundary, char)) | None')
+    eng.stub(r'<impl str>::char_indices$', lambda e, s_, a, c: Opaque('CharIndices', 'ci'), 'str::char_indices')
+    eng.stub(r'Level::span(::<.*>)?$', lvl_span, 'annotate_snippets Level::span(range): the range is observed')
+    eng.stub(r'<String as (std::ops::)?Deref>::deref$', lambda e, s_, a, c: a[0], 'String deref')
+    try:
+        for kname in ('LineOverflow', 'TrailingWhitespace'):
+            st = State()
+            found, mx = z3.BitVec('found', 64), z3.BitVec('max', 64)
+            st.assume(z3.And(isb(z3.BitVecVal(0, 64)), isb(n), z3.ULT(n, LIM), z3.ULT(found, LIM), z3.ULT(mx, found)))
+            kind = Enum('ErrorKind', ek.index(kname), {ek.index(kname): Tup([BV(found, 'usize'), BV(mx, 'usize')])} if kname == 'LineOverflow' else {})
+            vals = []
+            for fname_, ty in fe:
+                if fname_ == 'kind':
+                    vals.append(kind)
+                elif fname_ == 'line_buffer':
+                    vals.append(buf)
+                else:
+                    vals.append(eng.fresh_of_type(st, ty, 'err.' + fname_))
+            err = eng.ref_to(st, Tup(vals, 'FormattingError'), False, 'error')
+            outs = ctx.check_outcomes(eng.run(name, [err], st), 'annotation')
+            for pi, o in enumerate(outs):
+                label = 'annotation/%s/p%d' % (kname, pi)
+                if o.kind != 'ret':
+                    ctx.prop(label + '/no-panic[%s]' % str(o.info.get('msg'))[:30], o.state.pc, z3.BoolVal(True), [n, found, mx], make_annotation_replay(ctx), twin=False)
+                    continue
+                for t in o.state.trace:
+                    if t[0] != 'span':
+                        continue
+                    rg = t[1]
+                    while isinstance(rg, Ref):
+                        rg = eng.read_ref(o.state, rg)
+                    s0, e0 = rg.items[0].e, rg.items[1].e
+                    ctx.prop(label + '/range-inside-the-line-and-on-character-boundaries', o.state.pc,
+                             z3.Not(z3.And(z3.ULE(s0, e0), z3.ULE(e0, n), isb(s0), isb(e0))), [n, found, mx, s0, e0], make_annotation_replay(ctx), twin=False, hint=[z3.ULT(n, 300)])
+    finally:
+        eng.lenient, eng.usize_bound, eng.inline_only, eng.stubs = old
+
+
+def make_annotation_replay(ctx):
+    def replay(model, r):
+        bins = ensure_bins()
+        rf = os.path.join(bins, 'rustfmt')
+        d = os.path.join(BUILD, 'scratch', 'c16a-%d' % os.getpid())
+        shutil.rmtree(d, ignore_errors=True)
+        os.makedirs(d)
+        cases = [('tab in a too wide line', 'fn a() {\n\tlet x = "%s";\n}\n' % ('a' * 130), 'hard_tabs=true,error_on_line_overflow=true,error_on_unformatted=true'),
+                 ('two-byte characters in a too wide line', 'fn a() {\n    let x = "%s";\n}\n' % ('\u00e9' * 130), 'error_on_line_overflow=true,error_on_unformatted=true'),
+                 ('three-byte characters around column 100', 'fn a() {\n    let x = "%s%s";\n}\n' % ('a' * 83, '\u4e2d' * 30), 'error_on_line_overflow=true,error_on_unformatted=true'),
+                 ('trailing blanks after a two-byte character', 'fn b() {\n    let y = %s(1, \u00e9   \n        );\n}\n' % ('a' * 50), 'max_width=40'),
+                 ('plain ASCII control', 'fn a() {\n    let x = "%s";\n}\n' % ('a' * 130), 'error_on_line_overflow=true,error_on_unformatted=true')]
+        found = []
+        for what, src, cfg in cases:
+            p = os.path.join(d, 'x.rs')
+            open(p, 'w', encoding='utf-8').write(src)
+            pr = subprocess.run([rf, '--emit', 'stdout', '--config', cfg, p], capture_output=True, text=True, env=run_env(), timeout=60, cwd=d)
+            if pr.returncode not in (0, 1) or 'panicked' in pr.stderr:
+                m = re.search(r'panicked at ([^\n]*)\n([^\n]*)', pr.stderr)
+                found.append('%s: exit %d, %s' % (what, pr.returncode, (m.group(2)[:100] if m else 'panic')))
+        shutil.rmtree(d, ignore_errors=True)
+        return {'reproduced': bool(found), 'detail': found}
+    return replay
 
 
 def src_text(eng, span):
